@@ -257,8 +257,8 @@ Proof. exact key_from_file_all_blank. Qed.
 Print Assumptions key_file_of_blanks_is_empty_key.
 Example key_hex_nonvacuous :
   set_hex [48;49;65;102] = KeyOk [1; 175] /\ set_hex [48;49;65] = KeyOddLength /\ set_hex [48;103] = KeyBadChar /\
-  to_hex [1; 175] = [48;49;97;102] /\\
-  key_from_file [48;49;65;102;10;32] = KeyOk [1; 175] /\\ key_from_file [32;48;49] = KeyBadChar /\\ key_from_file [] = KeyEmptyFile.
+  to_hex [1; 175] = [48;49;97;102] /\
+  key_from_file [48;49;65;102;10;32] = KeyOk [1; 175] /\ key_from_file [32;48;49] = KeyBadChar /\ key_from_file [] = KeyEmptyFile.
 Proof. vm_compute. repeat split; reflexivity. Qed.
 
 (* ---------------------------------------------------------------------------------------------
